@@ -1,221 +1,365 @@
-"""C20 -- record identity: correspondence + oracle (exhaustive over a bounded vocabulary)."""
-from __future__ import annotations
+"""C20 -- record identity: correspondence + oracle.
 
-import itertools
+Every record / question is described by its *constructor arguments* (`Desc`); the object under test is built from
+them, while the oracle (`spec_ident`) and the model driver line are computed from the arguments alone -- never from
+attributes of the object -- so that what `__init__` does to them (masking the cache-flush bit off the class,
+lower-casing keys, sorting NSEC types, storing the scope) is part of what is checked.
+
+Two vocabularies: a *core* one over which **all ordered pairs** are evaluated (exhaustive, both tiers), and an
+*extended* one (more names/hosts/classes/TTLs) from which pairs are sampled (near neighbours = one-field variants,
+the twin of each record under every other owner name, and random partners).
+"""
+from __future__ import annotations
 
 from . import common as C
 
 TRUSTED = ["str.lower() is modelled as an uninterpreted function in the theorems and as ASCII lowering in the driver; "
-           "the vocabulary only uses characters on which the two agree"]
+           "the vocabulary has no upper-case non-ASCII letter, so the two agree on it (where str.lower() and DNS's "
+           "ASCII-only case-insensitivity differ - 'É' vs 'é' - is a reading: the property says 'case-insensitively' "
+           "and the library uses str.lower())",
+           "sorted() of the NSEC type list (the translator checks that rdtypes is stored as sorted(rdtypes))"]
 ASSUMPTIONS = ["CPython dict/set behave as maps for keys with congruent __eq__/__hash__ (the congruence is what C20 proves)"]
 
+IN, UNIQUE, ANY = 1, 0x8000, 255
+T_A, T_CNAME, T_PTR, T_HINFO, T_TXT, T_AAAA, T_SRV, T_NSEC, T_ANY = 1, 5, 12, 13, 16, 28, 33, 47, 255
+V6 = b"\xfe\x80" + b"\x00" * 13 + b"\x01"
 
-def vocab(tier, rng):
-    from zeroconf import _dns as d
-    from zeroconf import const as k
 
-    # straße/strasse, ﬁsh/fish: distinct under str.lower() (the identity the property names) but merged by full case
-    # folding; no upper-case non-ASCII letter is used, so ASCII lowering (driver) and str.lower() agree on all of them
-    names = ["foo._http._tcp.local.", "Foo._HTTP._tcp.local.", "FOO._http._TCP.LOCAL.", "bar._http._tcp.local.", "日本._x._udp.local.",
-             "straße._x._udp.local.", "strasse._x._udp.local.", "é._x._udp.local.", "ﬁsh._x._udp.local.", "fish._x._udp.local.", "STRASSE._x._udp.local."]
-    hosts = ["host.local.", "HOST.Local.", "other.local.", "straße.local.", "strasse.local."]
-    classes = [k._CLASS_IN, k._CLASS_IN | k._CLASS_UNIQUE, k._CLASS_ANY, k._CLASS_CS | k._CLASS_UNIQUE]
-    ttls = [0, 1, 120, 4500]
-    if tier != "thorough":
-        names = names[:7]
-        classes = classes[:3]
-        ttls = [0, 120, 4500]
+# ------------------------------------------------------------------------------------------------
+# descriptions
+
+
+def D(kind, name, type_, rawclass, ttl, created, *rd):
+    return (kind, name, type_, rawclass, ttl, created, tuple(rd))
+
+
+def build(d):
+    from zeroconf import _dns as z
+
+    kind, name, type_, c, ttl, cr, rd = d
+    if kind == "a":
+        return z.DNSAddress(name, type_, c, ttl, rd[0], scope_id=rd[1], created=cr)
+    if kind == "h":
+        return z.DNSHinfo(name, type_, c, ttl, rd[0], rd[1], created=cr)
+    if kind == "p":
+        return z.DNSPointer(name, type_, c, ttl, rd[0], created=cr)
+    if kind == "t":
+        return z.DNSText(name, type_, c, ttl, rd[0], created=cr)
+    if kind == "s":
+        return z.DNSService(name, type_, c, ttl, rd[0], rd[1], rd[2], rd[3], created=cr)
+    if kind == "n":
+        return z.DNSNsec(name, type_, c, ttl, rd[0], list(rd[1]), created=cr)
+    raise TypeError(kind)
+
+
+def spec_ident(d):
+    """the property's sentence, on the constructor arguments: kind; owner name case-insensitively; type; class without
+    the top (cache-flush) bit; rdata with PTR target / SRV host case-insensitively and the IPv6 scope.  TTL and creation
+    time do not occur."""
+    kind, name, type_, c, _ttl, _cr, rd = d
+    if kind == "p":
+        rdi = (rd[0].lower(),)
+    elif kind == "s":
+        rdi = (rd[0], rd[1], rd[2], rd[3].lower())
+    elif kind == "n":
+        rdi = (rd[0], tuple(sorted(rd[1])))
+    else:
+        rdi = rd
+    return (kind, name.lower(), type_, c % 32768, rdi)
+
+
+def line(d):
+    """driver line (`Zc.Rec.parse`); the class token is the RAW constructor argument, the unique token is unused"""
+    kind, name, type_, c, ttl, cr, rd = d
+    head = "%s %d %d 0 %d %d" % (C.hs(name), type_, c, int(ttl), int(cr))
+    if kind == "a":
+        return "a %s %s %s" % (head, C.hx(rd[0]), "-" if rd[1] is None else str(rd[1]))
+    if kind == "h":
+        return "h %s %s %s" % (head, C.hs(rd[0]), C.hs(rd[1]))
+    if kind == "p":
+        return "p %s %s" % (head, C.hs(rd[0]))
+    if kind == "t":
+        return "t %s %s" % (head, C.hx(rd[0]))
+    if kind == "s":
+        return "s %s %d %d %d %s" % (head, rd[0], rd[1], rd[2], C.hs(rd[3]))
+    return "n %s %s %s" % (head, C.hs(rd[0]), C.natlist(sorted(rd[1])))
+
+
+def qline(q):
+    name, type_, c = q
+    return "%s %d %d 0" % (C.hs(name), type_, c)
+
+
+def variants(name, c, ttl, cr, hosts):
+    """every record kind under one owner name / class, rdata differing in one field at a time"""
+    out = [
+        D("a", name, T_A, c, ttl, cr, b"\x0a\x00\x00\x01", None),
+        D("a", name, T_A, c, ttl, cr, b"\x0a\x00\x00\x02", None),
+        D("a", name, T_AAAA, c, ttl, cr, V6, None),
+        D("a", name, T_AAAA, c, ttl, cr, V6, 3),
+        D("a", name, T_AAAA, c, ttl, cr, V6, 0),
+        D("h", name, T_HINFO, c, ttl, cr, "cpu", "os"),
+        D("h", name, T_HINFO, c, ttl, cr, "CPU", "os"),
+        D("h", name, T_HINFO, c, ttl, cr, "cpu", "os2"),
+    ]
+    for h in hosts:
+        out.append(D("p", name, T_PTR, c, ttl, cr, h))
+        out.append(D("s", name, T_SRV, c, ttl, cr, 0, 0, 80, h))
+    out += [
+        D("p", name, T_CNAME, c, ttl, cr, hosts[0]),
+        D("t", name, T_TXT, c, ttl, cr, b"\x03a=1"),
+        D("t", name, T_TXT, c, ttl, cr, b"\x03A=1"),
+        D("t", name, T_TXT, c, ttl, cr, b""),
+        D("s", name, T_SRV, c, ttl, cr, 1, 0, 80, hosts[0]),
+        D("s", name, T_SRV, c, ttl, cr, 0, 1, 80, hosts[0]),
+        D("s", name, T_SRV, c, ttl, cr, 0, 0, 81, hosts[0]),
+        D("n", name, T_NSEC, c, ttl, cr, name, (T_A, T_AAAA)),
+        D("n", name, T_NSEC, c, ttl, cr, name, (T_AAAA, T_A)),
+        D("n", name, T_NSEC, c, ttl, cr, name, (T_A,)),
+        D("n", name, T_NSEC, c, ttl, cr, name.upper(), (T_A,)),
+        # same payload carried by a different class of object
+        D("t", name, T_A, c, ttl, cr, b"\x0a\x00\x00\x01"),
+    ]
+    return out
+
+
+def vocab_core():
+    """small enough for all ordered pairs: 5 owner names (two spellings of one name, an unrelated one, a pair that only
+    full case folding merges), 4 raw classes (IN with and without the flush bit, ANY, and 0x0101 = IN plus a bit inside
+    the 15-bit class), TTL/creation time varied per (name, class) so that identity-equal records differ in them"""
+    names = ["foo._http._tcp.local.", "Foo._HTTP._tcp.local.", "bar._http._tcp.local.", "straße._x._udp.local.", "strasse._x._udp.local."]
+    hosts = ["host.local.", "HOST.Local.", "other.local."]
+    classes = [IN, IN | UNIQUE, ANY, 0x0101]
     recs = []
-    for n in names:
-        for c in classes:
-            for ttl in ttls[:2] if tier != "thorough" else ttls:
-                cr = 1000.0 + ttl
-                recs.append(d.DNSAddress(n, k._TYPE_A, c, ttl, b"\x0a\x00\x00\x01", created=cr))
-                recs.append(d.DNSAddress(n, k._TYPE_A, c, ttl, b"\x0a\x00\x00\x02", created=cr))
-                recs.append(d.DNSAddress(n, k._TYPE_AAAA, c, ttl, b"\xfe\x80" + b"\x00" * 13 + b"\x01", created=cr))
-                recs.append(d.DNSAddress(n, k._TYPE_AAAA, c, ttl, b"\xfe\x80" + b"\x00" * 13 + b"\x01", scope_id=3, created=cr))
-                recs.append(d.DNSAddress(n, k._TYPE_AAAA, c, ttl, b"\xfe\x80" + b"\x00" * 13 + b"\x01", scope_id=0, created=cr))
-                recs.append(d.DNSHinfo(n, k._TYPE_HINFO, c, ttl, "cpu", "os", created=cr))
-                recs.append(d.DNSHinfo(n, k._TYPE_HINFO, c, ttl, "CPU", "os", created=cr))
-                recs.append(d.DNSHinfo(n, k._TYPE_HINFO, c, ttl, "cpu", "os2", created=cr))
-                for h in hosts:
-                    recs.append(d.DNSPointer(n, k._TYPE_PTR, c, ttl, h, created=cr))
-                    recs.append(d.DNSService(n, k._TYPE_SRV, c, ttl, 0, 0, 80, h, created=cr))
-                recs.append(d.DNSPointer(n, k._TYPE_CNAME, c, ttl, hosts[0], created=cr))
-                recs.append(d.DNSText(n, k._TYPE_TXT, c, ttl, b"\x03a=1", created=cr))
-                recs.append(d.DNSText(n, k._TYPE_TXT, c, ttl, b"\x03A=1", created=cr))
-                recs.append(d.DNSText(n, k._TYPE_TXT, c, ttl, b"", created=cr))
-                recs.append(d.DNSService(n, k._TYPE_SRV, c, ttl, 1, 0, 80, hosts[0], created=cr))
-                recs.append(d.DNSService(n, k._TYPE_SRV, c, ttl, 0, 1, 80, hosts[0], created=cr))
-                recs.append(d.DNSService(n, k._TYPE_SRV, c, ttl, 0, 0, 81, hosts[0], created=cr))
-                recs.append(d.DNSNsec(n, k._TYPE_NSEC, c, ttl, n, [k._TYPE_A, k._TYPE_AAAA], created=cr))
-                recs.append(d.DNSNsec(n, k._TYPE_NSEC, c, ttl, n, [k._TYPE_AAAA, k._TYPE_A], created=cr))
-                recs.append(d.DNSNsec(n, k._TYPE_NSEC, c, ttl, n, [k._TYPE_A], created=cr))
-                recs.append(d.DNSNsec(n, k._TYPE_NSEC, c, ttl, n.upper(), [k._TYPE_A], created=cr))
-                # same payload carried by a different class of object
-                recs.append(d.DNSText(n, k._TYPE_A, c, ttl, b"\x0a\x00\x00\x01", created=cr))
-    qs = []
-    for n in names:
-        for t in (k._TYPE_PTR, k._TYPE_A, k._TYPE_ANY):
-            for c in classes:
-                qs.append(d.DNSQuestion(n, t, c))
+    for ni, n in enumerate(names):
+        for ci, c in enumerate(classes):
+            ttl = [0, 120, 4500, 1][(ni + ci) % 4]
+            recs += variants(n, c, ttl, 1000.0 + 7 * ni + ci, hosts)
+    qs = [(n, t, c) for n in names for t in (T_PTR, T_A, T_ANY) for c in classes]
     return recs, qs
 
 
-def spec_ident(r):
-    from zeroconf import _dns as d
+def vocab_ext(tier):
+    names = ["foo._http._tcp.local.", "Foo._HTTP._tcp.local.", "FOO._http._TCP.LOCAL.", "bar._http._tcp.local.", "日本._x._udp.local.",
+             "straße._x._udp.local.", "strasse._x._udp.local.", "é._x._udp.local.", "ﬁsh._x._udp.local.", "fish._x._udp.local.", "STRASSE._x._udp.local."]
+    hosts = ["host.local.", "HOST.Local.", "other.local.", "straße.local.", "strasse.local."]
+    classes = [IN, IN | UNIQUE, ANY, 2 | UNIQUE, 0x0101, 0x7FFF, 0xFFFF]
+    ttls = [0, 1, 120, 4500]
+    if tier != "thorough":
+        names = names[:7]
+        classes = classes[:5]
+        ttls = [0, 4500]
+    recs = []
+    for n in names:
+        for c in classes:
+            for ttl in ttls:
+                recs += variants(n, c, ttl, 1000.0 + ttl, hosts)
+    return recs, max(1, len(recs) // len(names))
 
-    if isinstance(r, d.DNSAddress):
-        rd = ("addr", r.address, r.scope_id)
-    elif isinstance(r, d.DNSHinfo):
-        rd = ("hinfo", r.cpu, r.os)
-    elif isinstance(r, d.DNSPointer):
-        rd = ("ptr", r.alias.lower())
-    elif isinstance(r, d.DNSText):
-        rd = ("txt", r.text)
-    elif isinstance(r, d.DNSService):
-        rd = ("srv", r.priority, r.weight, r.port, r.server.lower())
-    elif isinstance(r, d.DNSNsec):
-        rd = ("nsec", r.next_name, tuple(sorted(r.rdtypes)))
-    else:
-        raise TypeError
-    return (r.name.lower(), r.type, r.class_, rd)
+
+# ------------------------------------------------------------------------------------------------
+
+
+def check_pair(res, da, db, a, b, mline, case):
+    res.evaluations += 1
+    eq = a == b
+    ne = a != b
+    heq = hash(a) == hash(b)
+    inset = b in {a}
+    indict = {a: 1}.get(b) == 1
+    sa, sb = spec_ident(da), spec_ident(db)
+    spec = sa == sb
+    diff = tuple(k for k, (x, y) in enumerate(zip(sa, sb)) if x != y)
+    flush_differs = (da[3] >= 32768) != (db[3] >= 32768)
+    sig = "%s/%s/%s/%s" % (da[0], db[0], diff, (da[4] != db[4], flush_differs))
+    if eq or len(diff) <= 1:
+        res.nontriv(sig)
+    res.count("equal" if eq else "unequal")
+    kn = type(a).__name__
+    if eq != spec:
+        res.violate("C20:eq-vs-spec:%s/%s:%s%s" % (kn, type(b).__name__, diff, ":flush-bit" if spec and flush_differs else ""),
+                    "records compare %s but identity (kind, lower name, type, class without the flush bit, rdata) of the "
+                    "constructor arguments says %s" % (eq, spec), case())
+    if eq and not heq:
+        res.violate("C20:equal-unequal-hash:%s" % kn, "equal records with different hashes", case())
+    if eq == ne:
+        res.violate("C20:ne-inconsistent:%s" % kn, "__ne__ inconsistent with __eq__", case())
+    if (inset != eq or indict != eq) and not (heq and not eq):  # a hash collision without equality cannot make them members
+        res.violate("C20:set-membership:%s" % kn, "set/dict membership disagrees with equality", case())
+    if mline is not None:
+        m = mline.split()
+        if m == ["bad-op"]:
+            res.disagree("c20r", case(), "parsed", "bad-op")
+            return
+        meq, mheq, mkeq, mseq = (x == "1" for x in m)
+        if meq != eq or (mheq and not heq) or (mkeq and mseq) != spec:
+            res.disagree("c20r", case(), {"eq": eq, "hash_eq": heq, "spec": spec}, {"eq": meq, "hash_eq": mheq, "kind_eq": mkeq, "spec_eq": mseq})
 
 
 def run(ctx):
     res = C.Result("C20")
     rng = C.rng_for(ctx["seed"], "c20")
-    recs, qs = vocab(ctx["tier"], rng)
+    core, qs = vocab_core()
+    ext, group = vocab_ext(ctx["tier"])
     budget = C.Budget(ctx["tier"], 16000, 260000).n
     if ctx["widened"]:
         budget *= 4
-    n = len(recs)
-    group = max(1, n // len({r.name for r in recs}))
-    # all pairs if they fit, else: all pairs (i, j) with j in a seeded sample
-    pairs = []
-    if n * n <= budget:
-        pairs = [(i, j) for i in range(n) for j in range(n)]
-        res.exhaustive = True
-    else:
-        per = max(1, budget // n)
-        for i in range(n):
-            js = set(rng.sample(range(n), min(n, per)))
-            js.add(i)
-            # always include the near neighbours (same name group): one-field-at-a-time variants
-            for j in range(max(0, i - 30), min(n, i + 30)):
-                js.add(j)
-            # ... and the same record under every other owner name (the records are built per name in one order)
-            for j in range(i % group, n, group):
-                js.add(j)
-            pairs.extend((i, j) for j in sorted(js))
-    lines = ["c20r %s %s" % (C.rec_line(recs[i]), C.rec_line(recs[j])) for i, j in pairs]
+    core_obj = [build(d) for d in core]
+    ext_obj = [build(d) for d in ext]
+    q_obj = None
+    from zeroconf._dns import DNSQuestion
+
+    q_obj = [DNSQuestion(*q) for q in qs]
+
+    # (1) all ordered pairs of the core vocabulary
+    n = len(core)
+    core_pairs = [(i, j) for i in range(n) for j in range(n)]
+    res.exhaustive = True
+    # (2) sampled pairs of the extended vocabulary
+    m = len(ext)
+    per = max(1, budget // m)
+    ext_pairs = []
+    for i in range(m):
+        js = set(rng.sample(range(m), min(m, per)))
+        js.add(i)
+        for j in range(max(0, i - 30), min(m, i + 30)):   # one-field-at-a-time variants are neighbours
+            js.add(j)
+        for j in range(i % group, m, group):              # the same record under every other owner name
+            js.add(j)
+        ext_pairs.extend((i, j) for j in sorted(js))
     qpairs = [(i, j) for i in range(len(qs)) for j in range(len(qs))]
-    lines += ["c20q %s %s" % (C.question_line(qs[i]), C.question_line(qs[j])) for i, j in qpairs]
+    # (3) DNSRRSet over lists with identity-equal records of different TTL
+    rr_cases = []
+    for _ in range(400 if ctx["tier"] != "thorough" else 4000):
+        k = rng.randint(1, 4)
+        base = rng.randrange(n)
+        idxs = []
+        for _ in range(k):
+            r = rng.random()
+            if r < 0.6:  # an identity twin (other spelling / flush bit / TTL) or a near neighbour
+                cand = [j for j in range(n) if spec_ident(core[j]) == spec_ident(core[base])] if r < 0.4 else list(range(max(0, base - 3), min(n, base + 4)))
+                idxs.append(rng.choice(cand))
+            else:
+                idxs.append(rng.randrange(n))
+        probe = rng.choice([base] + idxs)
+        rr_cases.append((idxs, probe))
+
+    lines = ["c20r %s %s" % (line(core[i]), line(core[j])) for i, j in core_pairs]
+    lines += ["c20r %s %s" % (line(ext[i]), line(ext[j])) for i, j in ext_pairs]
+    lines += ["c20q %s %s" % (qline(qs[i]), qline(qs[j])) for i, j in qpairs]
+    lines += ["c20s %d %s %s" % (len(ix), " ".join(line(core[i]) for i in ix), line(core[p])) for ix, p in rr_cases]
     model = None
     if ctx["driver_ok"]:
         try:
             model = C.run_driver(lines)
         except C.DriverUnavailable as ex:
             res.notes.append("driver unavailable: %s" % ex)
-    res.rule = ("all ordered pairs over a vocabulary of %d records (names in 3 spellings + unrelated + non-ASCII incl. pairs that only full case folding merges, 7 kinds, classes with/without top bit, "
-                "TTLs, rdata variants differing in one field) and %d questions; non-trivial = distinct (kind pair, which-fields-differ) signature "
-                "among pairs that are equal or differ in exactly one identity-relevant respect" % (n, len(qs)))
-    for idx, (i, j) in enumerate(pairs):
-        a, b = recs[i], recs[j]
-        res.evaluations += 1
-        eq = a == b
-        ne = a != b
-        heq = hash(a) == hash(b)
-        inset = b in {a}
-        indict = {a: 1}.get(b) == 1
-        sa, sb = spec_ident(a), spec_ident(b)
-        spec = type(a) is type(b) and sa == sb
-        diff = tuple(k for k, (x, y) in enumerate(zip(sa, sb)) if x != y)
-        sig = "%s/%s/%s/%s" % (type(a).__name__, type(b).__name__, diff, (a.ttl != b.ttl, a.unique != b.unique))
-        if eq or len(diff) <= 1:
-            res.nontriv(sig)
-        res.count("equal" if eq else "unequal")
-        case = {"a": C.rec_line(a), "b": C.rec_line(b)}
-        if eq != spec:
-            res.violate("C20:eq-vs-spec:%s/%s:%s" % (type(a).__name__, type(b).__name__, diff),
-                        "records compare %s but identity (kind, lower name, type, class, rdata) says %s" % (eq, spec), case)
-        if eq and not heq:
-            res.violate("C20:equal-unequal-hash:%s" % type(a).__name__, "equal records with different hashes", case)
-        if eq == ne:
-            res.violate("C20:ne-inconsistent:%s" % type(a).__name__, "__ne__ inconsistent with __eq__", case)
-        if inset != eq or indict != eq:
-            if not (heq and not eq):  # a hash collision without equality cannot make them members
-                res.violate("C20:set-membership:%s" % type(a).__name__, "set/dict membership disagrees with equality", case)
-        if model is not None:
-            m = model[idx].split()
-            if m == ["bad-op"]:
-                res.disagree("c20r", case, "parsed", "bad-op")
-                continue
-            meq, mheq, mkeq, mseq = (x == "1" for x in m)
-            if meq != eq or (mheq and not heq) or (mkeq and mseq) != spec:
-                res.disagree("c20r", case, {"eq": eq, "hash_eq": heq, "spec": spec}, {"eq": meq, "hash_eq": mheq, "kind_eq": mkeq, "spec_eq": mseq})
-        if idx < 3:
-            res.sample({"a": repr(a), "b": repr(b), "eq": eq, "hash_eq": heq})
-    base = len(pairs)
+    res.rule = ("ALL %d ordered pairs over a core vocabulary of %d records (5 owner names incl. two spellings and a pair only full case folding "
+                "merges, 4 raw classes with/without the cache-flush bit, 7 kinds, rdata variants differing in one field, TTL/created "
+                "varying between identity-equal records) + %d sampled pairs over an extended vocabulary of %d records + all %d pairs of %d "
+                "questions + %d DNSRRSet look-ups over 1-4 stored records; oracle and model line are computed from the constructor arguments, "
+                "never from the object; non-trivial = distinct (kind pair, which-fields-differ, ttl/flush differ) signature among pairs "
+                "that are equal or differ in exactly one identity-relevant respect"
+                % (len(core_pairs), n, len(ext_pairs), m, len(qpairs), len(qs), len(rr_cases)))
+    off = 0
+    for idx, (i, j) in enumerate(core_pairs):
+        check_pair(res, core[i], core[j], core_obj[i], core_obj[j], model[off + idx] if model else None,
+                   lambda i=i, j=j: {"a": list(map(repr, core[i])), "b": list(map(repr, core[j])), "vocab": "core", "i": i, "j": j})
+    off += len(core_pairs)
+    for idx, (i, j) in enumerate(ext_pairs):
+        check_pair(res, ext[i], ext[j], ext_obj[i], ext_obj[j], model[off + idx] if model else None,
+                   lambda i=i, j=j: {"a": list(map(repr, ext[i])), "b": list(map(repr, ext[j])), "vocab": "ext:" + ctx["tier"], "i": i, "j": j})
+    off += len(ext_pairs)
+    res.sample({"a": repr(core_obj[0]), "b": repr(core_obj[1]), "eq": core_obj[0] == core_obj[1]})
+
     for idx, (i, j) in enumerate(qpairs):
-        a, b = qs[i], qs[j]
+        a, b = q_obj[i], q_obj[j]
         res.evaluations += 1
         eq = a == b
         heq = hash(a) == hash(b)
-        spec = (a.name.lower(), a.type, a.class_) == (b.name.lower(), b.type, b.class_)
+        spec = (qs[i][0].lower(), qs[i][1], qs[i][2] % 32768) == (qs[j][0].lower(), qs[j][1], qs[j][2] % 32768)
         if eq or spec:
-            res.nontriv("q/%s/%s" % (a.name != b.name, a.unique != b.unique))
-        case = {"qa": C.question_line(a), "qb": C.question_line(b)}
+            res.nontriv("q/%s/%s" % (qs[i][0] != qs[j][0], (qs[i][2] >= 32768) != (qs[j][2] >= 32768)))
+        case = {"qa": list(qs[i]), "qb": list(qs[j])}
         if eq != spec:
-            res.violate("C20:question-eq-vs-spec", "questions compare %s, (lower name, type, class) says %s" % (eq, spec), case)
+            res.violate("C20:question-eq-vs-spec", "questions compare %s, (lower name, type, class without the QU bit) says %s" % (eq, spec), case)
         if eq and not heq:
             res.violate("C20:question-hash", "equal questions with different hashes", case)
         if model is not None:
-            m = model[base + idx].split()
-            if m == ["bad-op"] or (m[0] == "1") != eq or (m[1] == "1" and not heq) or (m[2] == "1") != spec:
-                res.disagree("c20q", case, {"eq": eq, "hash_eq": heq, "spec": spec}, m)
+            mm = model[off + idx].split()
+            if mm == ["bad-op"] or (mm[0] == "1") != eq or (mm[1] == "1" and not heq) or (mm[2] == "1") != spec:
+                res.disagree("c20q", case, {"eq": eq, "hash_eq": heq, "spec": spec}, mm)
+    off += len(qpairs)
+
     # "the same record for the cache, for known-answer suppression": the containers that rely on identity
     from zeroconf import DNSCache
     from zeroconf._dns import DNSRRSet, DNSNsec
 
-    sub = recs[:: max(1, len(recs) // 160)]
-    near = []
-    for i in range(len(sub)):
-        for j in range(len(sub)):
-            near.append((sub[i], sub[j]))
-    for i in range(0, len(recs) - 1, 3):
-        for j in range(i, min(len(recs), i + 28)):
-            near.append((recs[i], recs[j]))
-            near.append((recs[j], recs[i]))
-    for a, b in near:
+    for idx, (ix, p) in enumerate(rr_cases):
         res.evaluations += 1
-        same = type(a) is type(b) and spec_ident(a) == spec_ident(b)
-        case = {"a": C.rec_line(a), "b": C.rec_line(b)}
+        sup = DNSRRSet([build(core[i]) for i in ix]).suppresses(build(core[p]))
+        same = [i for i in ix if spec_ident(core[i]) == spec_ident(core[p])]
+        # suppression = some stored record is the same record and has more than half the probe's TTL.  When several
+        # identical stored records disagree on the TTL test, the property does not say which one counts (the code and the
+        # model use the last one: that is compared through the driver only), so the oracle accepts either verdict there.
+        verdicts = {core[i][4] > core[p][4] / 2 for i in same}
+        case = {"stored": [list(map(repr, core[i])) for i in ix], "probe": list(map(repr, core[p]))}
+        if same:
+            res.nontriv("rrset/%d/%d/%s" % (len(ix), len(same), sorted(verdicts)))
+        if (not same and sup) or (len(verdicts) == 1 and sup != next(iter(verdicts))):
+            res.violate("C20:rrset-suppression:%s" % core[p][0], "known-answer suppression says %s, identity and TTLs say %s" % (sup, sorted(verdicts) or [False]), case)
+        if model is not None:
+            mm = model[off + idx].strip()
+            if mm not in ("0", "1") or (mm == "1") != sup:
+                res.disagree("c20s", case, sup, mm)
+    off += len(rr_cases)
+
+    sub = list(range(0, n, max(1, n // 160)))
+    near = [(i, j) for i in sub for j in sub]
+    for i in range(0, n - 1, 3):
+        for j in range(i, min(n, i + 28)):
+            near.append((i, j))
+            near.append((j, i))
+    for i, j in near:
+        res.evaluations += 1
+        da, db = core[i], core[j]
+        a, b = build(da), build(db)
+        same = spec_ident(da) == spec_ident(db)
+        case = {"a": list(map(repr, da)), "b": list(map(repr, db))}
         cache = DNSCache()
         cache.async_add_records([a])
         found = cache.async_get_unique(b) is not None if not isinstance(b, DNSNsec) else cache.get(b) is not None
         found_get = cache.get(b) is not None
+        kn = type(a).__name__
         if found != same or found_get != same:
-            res.violate("C20:cache-lookup:%s" % type(a).__name__,
+            res.violate("C20:cache-lookup:%s" % kn,
                         "a cached record is %sfound through an %s probe (async_get_unique=%s, get=%s)" % ("" if same else "not ", "identical" if same else "different", found, found_get), case)
         cache.async_add_records([b])
-        n_name = len([r for r in cache.entries_with_name(a.name) if type(r) is type(a) and spec_ident(r) == spec_ident(a)])
-        if same and n_name != 1:
-            res.violate("C20:cache-duplicate:%s" % type(a).__name__, "adding the same record twice leaves %d copies in the cache" % n_name, case)
+        held = [r for r in cache.entries_with_name(da[1]) if type(r) is type(a) and r == a]
+        if same and len(held) != 1:
+            res.violate("C20:cache-duplicate:%s" % kn, "adding the same record twice leaves %d copies in the cache" % len(held), case)
         if same:
-            res.nontriv("cache/%s/%s" % (type(a).__name__, a.name != b.name))
-        sup = DNSRRSet([a]).suppresses(b)
-        want = same and a.ttl > b.ttl / 2
-        if sup != want:
-            res.violate("C20:rrset-suppression:%s" % type(a).__name__, "known-answer suppression says %s, identity and TTLs say %s" % (sup, want), case)
+            res.nontriv("cache/%s/%s" % (kn, da[1] != db[1]))
     # questions are never equal to records
-    for q in qs[:20]:
-        for r in recs[:40]:
+    for q in q_obj[:20]:
+        for r in core_obj[:40]:
             res.evaluations += 1
             if q == r or r == q:
-                res.violate("C20:question-equals-record", "a question compares equal to a record", {"q": C.question_line(q), "r": C.rec_line(r)})
+                res.violate("C20:question-equals-record", "a question compares equal to a record", {"q": repr(q), "r": repr(r)})
     return res
 
 
 def replay(body):
-    return {"violates": None, "note": "C20 cases are self-describing record pairs; re-run ./check C20 quick"}
+    """re-evaluate a stored pair on the current tree"""
+    case = body.get("case", body)
+    try:
+        if "vocab" in case:
+            voc = vocab_core()[0] if case["vocab"] == "core" else vocab_ext(case["vocab"].split(":")[1])[0]
+            da, db = voc[case["i"]], voc[case["j"]]
+            a, b = build(da), build(db)
+            spec = spec_ident(da) == spec_ident(db)
+            return {"violates": (a == b) != spec or ((a == b) and hash(a) != hash(b)), "eq": a == b, "spec": spec,
+                    "hash_eq": hash(a) == hash(b), "a": repr(a), "b": repr(b)}
+    except Exception as ex:  # pragma: no cover
+        return {"violates": None, "note": "replay failed: %r" % ex}
+    return {"violates": None, "note": "self-describing case; re-run ./check C20 quick"}
